@@ -288,6 +288,27 @@ func dimsLabel(d []int) string { return strings.ReplaceAll(fmt.Sprint(d), " ", "
 // mkTensorPeriodic creates an operand [n,1] whose elements alternate between the two real symbols <name>p and
 // <name>q along the flat index.
 func (e *OpEngine) mkTensorPeriodic(name string, n int, tracked bool) interp.PtrV {
+	return e.mkTensorPeriodicR(name, n, tracked, false)
+}
+
+// mkTensorPeriodicR: as mkTensorPeriodic; flat gives the rank-1 shape [n] instead of [n,1].
+func (e *OpEngine) mkTensorPeriodicR(name string, n int, tracked, flat bool) interp.PtrV {
+	if flat {
+		t := e.mkTensor(name, TensorArg{Dims: concreteDims([]int{n}), Tracked: tracked, Rng: spec.Rng(-10, 10)})
+		P, Q := sym.SymE(name+"p"), sym.SymE(name+"q")
+		par := sym.IMod(spec.Ix(0), sym.PInt(2))
+		e.W.InfoOf(t).Elem = sym.Add(sym.Mul(P, sym.Ind(sym.IntCond(sym.CEq(par, sym.PInt(0))))), sym.Mul(Q, sym.Ind(sym.IntCond(sym.CEq(par, sym.PInt(1))))))
+		els := make([]interp.Value, n)
+		for i := range els {
+			v := P
+			if i%2 == 1 {
+				v = Q
+			}
+			els[i] = interp.IfaceV{T: e.A.FloatT, V: interp.FloatV{E: v}}
+		}
+		interp.Store(t.C.Fields[e.A.FData], interp.IfaceV{T: e.anySlice(), V: e.M.SliceOf(e.A.AnyT, els, "data:"+name)})
+		return t
+	}
 	dims := []int{n, 1}
 	t := e.mkTensor(name, TensorArg{Dims: concreteDims(dims), Tracked: tracked, Rng: spec.Rng(-10, 10)})
 	P, Q := sym.SymE(name+"p"), sym.SymE(name+"q")
@@ -751,6 +772,56 @@ func (e *OpEngine) DataInstances(want func(string) bool, b DataBounds) []*DataCa
 				}
 				add(dc)
 			}
+		}
+	}
+	// … and the binary element-wise kernels on two periodic operands, as flat vectors and with a trailing unit axis
+	for _, c := range e.hugeThresholds() {
+		n := c + 1
+		for _, nm := range []string{"Add", "Sub", "Mul", "Div"} {
+			if !want(nm) {
+				continue
+			}
+			fn := e.method(nm)
+			for _, flat := range []bool{true, false} {
+				flat := flat
+				lbl := fmt.Sprintf("%s A=B=[%d] two-symbol periodic", nm, n)
+				if !flat {
+					lbl = fmt.Sprintf("%s A=B=[%d,1] two-symbol periodic", nm, n)
+				}
+				add(&DataCall{Fn: fn, Label: lbl, Steps: 40000000, Build: func(e *OpEngine) []interp.Value {
+					a := e.mkTensorPeriodicR("A", n, false, flat)
+					bt := e.mkTensorPeriodicR("B", n, false, flat)
+					return []interp.Value{a, e.W.Boxed(bt)}
+				}})
+			}
+		}
+		for _, nm := range []string{"Exp", "Scale", "Sum", "Mean"} {
+			if !want(nm) {
+				continue
+			}
+			nm := nm
+			fn := e.method(nm)
+			key := "cputensor.(*CPUTensor)." + nm
+			lbl := fmt.Sprintf("%s A=[%d] two-symbol periodic", nm, n)
+			var recv interp.PtrV
+			dc := &DataCall{Fn: fn, Label: lbl, Steps: 40000000, Build: func(e *OpEngine) []interp.Value {
+				recv = e.mkTensorPeriodicR("A", n, false, true)
+				if nm == "Scale" {
+					return []interp.Value{recv, interp.FloatV{E: sym.SymE("c")}}
+				}
+				return []interp.Value{recv}
+			}}
+			if nm == "Sum" || nm == "Mean" {
+				dc.OnResult = func(e *OpEngine, caseName string, res []interp.Value) {
+					e.did("D.elements", key)
+					wantV, ok := e.W.Method(nm, recv, nil)
+					if !ok || len(res) != 1 {
+						return
+					}
+					e.compareScalar(key, e.P.FuncPos(fn), res[0], wantV, lbl)
+				}
+			}
+			add(dc)
 		}
 	}
 	bpairs := broadcastPairsC(b)
